@@ -66,7 +66,14 @@ def build(t, part, chooser=None, handler_checkpoint=False):
     served = ['/', '/a'] if nsconf != 'star' else ['/', '/a', '/zz']
     if part['classns']:
         base = socketio.AsyncNamespace if asyncio_ else socketio.Namespace
-        if asyncio_:
+        if asyncio_ and part.get('plain_methods'):
+            # an asyncio class namespace may define plain methods
+            def oc(self, sid, environ, auth=None):
+                return on_connect_body(sid, environ, auth, 3)
+
+            def od(self, sid, reason):
+                log['disconnect'].append((sid, reason))
+        elif asyncio_:
             async def oc(self, sid, environ, auth=None):
                 return on_connect_body(sid, environ, auth, 3)
 
@@ -129,6 +136,14 @@ def h_hist(t, part):
     conn = {(e, ns): None for e in ES for ns in NSS}
     alive = {e: True for e in ES}
     ever = set()
+    if True:
+        # e0 is already connected to the default namespace when the history starts
+        with notrace():
+            pre = w.connect('e0', '/')
+            w.take('e0')
+            del log['connect'][:]
+        conn[('e0', '/')] = pre
+        ever.add(pre)
     OPS = [('connect', 'e0', ns, b, auth) for ns in NSS for b in range(len(BEHAVIOURS)) for auth in (0, 1)
            if not (ns == '/zz' and (b > 1 or auth))] + [('connect', 'e1', '/', 0, 0), ('connect', 'e1', '/a', 0, 1)] + \
           [('client-disconnect', 'e0', ns) for ns in NSS[:2]] + \
@@ -284,6 +299,12 @@ def h_race(t, part):
             return w.eio.lose('e0', 'transport close')
         return w.s.disconnect(sid_a, namespace='/a')
     tasks = [miniloop.create_task(cause(c), c) for c in causes]
+    served = []
+    if part.get('bystander_event'):
+        async def on_ev(sid_, *a):
+            served.append((sid_, a))
+        w.s.on('ev', on_ev)
+        tasks.append(miniloop.create_task(w.eio.recv('e1', w.P(packet.EVENT, data=['ev', 1]).encode()), 'bystander-event'))
     try:
         loop.drain()
     except miniloop.Deadlock as ex:
@@ -295,6 +316,9 @@ def h_race(t, part):
     excs = [(tk.name, tk.exc) for tk in tasks if tk.exc is not None] + [('engine.io-contained', x[1]) for x in w.eio.contained]
     if excs:
         return Fail('lifecycle:race:exception:%s' % type(excs[0][1]).__name__, repr(excs))
+    if part.get('bystander_event') and served != [(other, (1,))]:
+        return Fail('lifecycle:race:bystander-event-lost', 'an event of another client during the termination: handled %r; trace %r' % (
+            served, loop.trace))
     mine = [c for c in log['disconnect'] if c[0] == sid]
     reasons = {'server.disconnect': 'server disconnect', 'client-DISCONNECT': 'client disconnect',
                'transport-loss': 'transport close'}
@@ -336,6 +360,10 @@ def hist_parts(tier):
                     continue
                 for k0 in range(4):
                     out.append({'async': a, 'always_connect': ac, 'nsconf': nsconf, 'classns': classns, 'n': n, 'slice': [4, k0]})
+            if a:
+                for k0 in range(4):
+                    out.append({'async': a, 'always_connect': ac, 'nsconf': 'list', 'classns': True, 'plain_methods': True, 'n': n,
+                                'slice': [4, k0]})
     return out
 
 
@@ -344,6 +372,8 @@ def race_parts(tier):
              ['client-DISCONNECT', 'transport-loss'], ['server.disconnect', 'server.disconnect'],
              ['server.disconnect', 'server.disconnect-other-namespace'], ['client-DISCONNECT', 'client-DISCONNECT']]
     out = [{'causes': p, 'always_connect': False} for p in pairs]
+    out += [{'causes': [c], 'always_connect': False, 'bystander_event': True}
+            for c in ('server.disconnect', 'client-DISCONNECT', 'transport-loss')]
     if tier != 'quick':
         out += [{'causes': ['server.disconnect', 'client-DISCONNECT', 'transport-loss'], 'always_connect': False},
                 {'causes': ['server.disconnect', 'transport-loss', 'server.disconnect-other-namespace'], 'always_connect': False}]
